@@ -4,7 +4,7 @@ import itertools
 
 from symx import core, stubs
 from symx.core import is_sym, ssum
-from symx.stubs import facade, NondetStream
+from symx.stubs import facade, NondetStream, DetStream, det_random
 from harness.common import EVENTS, simplex
 
 PROPERTY = 'C11'
@@ -274,6 +274,23 @@ def sampling_laws(sx, kind, n):
             sx.prove(len(xs) == 2 and all(pr[v] > 0 for v in xs), 'sample-k2-positive')
 
 
+def seeded_sampling(sx, kind, n, k):
+    """repeated sampling from two equally seeded generators gives identical sequences (generators: deterministic-uninterpreted,
+    the j-th draw of a stream is U(seed, j); the seed is a symbolic integer)"""
+    seed = sx.integer('seed')
+    with det_random(sx), facade(sx):
+        d, pr = mk_dist(sx, kind, n, 'd')
+        if kind in ('dict', 'table', 'dictun'):
+            sx.assume(ssum(pr.values()) > 0)
+        import random as _r
+        g1, g2 = (DetStream(seed), DetStream(seed)) if sx.sym else (_r.Random(int(seed)), _r.Random(int(seed)))
+        xs = [d.sample(rng=g1) for _ in range(k)]
+        ys = [d.sample(rng=g2) for _ in range(k)]
+        sx.prove(xs == ys, 'equally-seeded-generators-give-identical-sample-sequences')
+        sx.prove(all(bool(pr[x] > 0) for x in xs), 'seeded-samples-have-positive-probability')
+        sx.prove(not stubs.TAINT.reads, 'global-generator-untouched')
+
+
 def jobs(tier):
     N = 3 if tier == 'quick' else 4
     o = dict(timeout_ms=30000, budget_s=600)
@@ -296,6 +313,8 @@ def jobs(tier):
                 for ksel in range(2):
                     yield ('condition_chain_laws', dict(kind=kind, n=n, wsel=wsel, ksel=ksel), o)
             yield ('sampling_laws', dict(kind=kind, n=n), o)
+            if n >= 2 or kind == 'det':
+                yield ('seeded_sampling', dict(kind=kind, n=n, k=2 if tier == 'quick' else 3), o)
     for k1 in ['dict', 'dictun', 'uniform', 'det', 'table']:
         for k2 in ['menu', 'uniform', 'det'] + (['dict'] if k1 in ('uniform', 'det') else []):
             for n1 in range(1, N + 1):
